@@ -32,15 +32,23 @@ def gen_cases(seed, tier, n):
         c["params"] = {"pseed": rng.randint(0, 10 ** 9)}
         if i % 3 == 1:
             tracegen.relabel_ranks(c)      # a subset of a job: rank ids are not 0..n-1, and not listed in order
+        if i % 8 == 6:
+            fw.set_quarter_us(c)           # quarter-microsecond resolution (framework.resolution); the threshold is scaled with the times
         out.append(c)
     return out
 
 
 def run_impl(case, d):
-    ta, paths = fw.load_case(case, d)
+    with fw.resolution(case):
+        return _run_impl(case, d)
+
+
+def _run_impl(case, d):
+    k = fw.time_scale(case)
+    ta, paths = fw.load_case_res(case, d)
     sym = ta.t.symbol_table.get_sym_table()
     ranks = sorted(ta.t.get_ranks())
-    frames = {r: fw.dump_frame(ta.t.get_trace(r), sym) for r in ranks}
+    frames = {r: fw.dump_frame_res(case, ta.t.get_trace(r), sym) for r in ranks}
     rng = random.Random(case["params"]["pseed"])
     gaps = []
     streams_all = {}
@@ -60,10 +68,10 @@ def run_impl(case, d):
     else:
         ssel = None
     try:
-        df, _ = ta.get_idle_time_breakdown(ranks=ranks, streams=ssel, visualize=False, consecutive_kernel_delay=d_)
+        df, _ = ta.get_idle_time_breakdown(ranks=ranks, streams=ssel, visualize=False, consecutive_kernel_delay=(d_ if k == 1 else d_ / k))
         out = []
         for rec in df.to_dict("records"):
-            out.append([int(rec["rank"]), int(rec["stream"]), str(rec["idle_category"]), float(rec["idle_time"]), float(rec["idle_time_ratio"])])
+            out.append([int(rec["rank"]), int(rec["stream"]), str(rec["idle_category"]), float(rec["idle_time"]) * k, float(rec["idle_time_ratio"])])
     except Exception as e:
         out = {"error": type(e).__name__ + ": " + str(e)[:200]}
     return {"frames": frames, "d": d_, "streams": ssel, "streams_all": streams_all, "out": out}
